@@ -76,7 +76,7 @@ def rand_config():
         "Writer": [(1, 0), (2, 0), (3, 0)], "ErrorWriter": [(1, 0), (2, 0), (4, 0)],
         "AddWriter": [(1, 0), (2, 0), (3, 0)], "AddErrorWriter": [(2, 0), (4, 0)],
         "ResetWriters": [(0, 0)], "UTCMode": [(1, 0), (3, 0)], "TimeFormat": [(1, 0), (2, 0)],
-        "CtxKeys": [(1, 0), (2, 0)],
+        "CtxKeys": [(1, 0), (2, 0)], "CtxReset": [(0, 0)],
     }
     return dict(
         max_loggers=3, init_level=5, names=["a", "b", "c"], bool_lists=BOOL_LISTS, layouts=["", "15:04:05"],
